@@ -9,3 +9,4 @@ Definition c09_hyp (n k : nat) (gs hs rs ts : list N) (t : nat) : bool := code_p
 (* the symbol level: table checks and the hard decisions of displaced symbols *)
 Definition c09_table (tbl : list entry) (D : Q) : bool := table_ok tbl && min_sqdist_ge (map fst tbl) D.
 Definition c09_demod (tbl : list entry) (ys : list pt) : list bool := demodulate tbl ys.
+Definition c09_link_ml (k : nat) (gs : list N) (e m : N) : N := link_ml k gs (fun c => N.lxor c e) m.
